@@ -42,16 +42,17 @@ VARIABLE S
 
 T == 0                       \* task id of the request stream; handler tasks are 1..MaxInc
 NoFault == "none"
+NoSleep == -1                \* the DelayQueue holds no Sleep
 
 HInit == [st |-> "none", id |-> -1, dl |-> 0, aborted |-> FALSE, abW |-> FALSE, complete |-> FALSE,
           inW |-> FALSE, armed |-> FALSE, finished |-> FALSE]
 
-Init ==
-  S = [ now |-> 0,
+InitS ==
+      [ now |-> 0,
         inq |-> <<>>, eof |-> FALSE, rdW |-> FALSE, rdDone |-> FALSE,
         reqLeft |-> MaxInc, cancelLeft |-> CancelBudget, usedIds |-> {},
         sinfl |-> {},                 \* <<id, h>> tracked by BaseChannel
-        sdq |-> {}, dqW |-> FALSE, dqS |-> FALSE,
+        sdq |-> {}, dqW |-> FALSE, dqS |-> FALSE, dly |-> NoSleep, wnow |-> 0, dqx |-> <<>>, dqn |-> 0,
         gcanc |-> <<>>, gcW |-> FALSE,
         resp |-> <<>>, rwait |-> <<>>, rgrant |-> {}, rsW |-> FALSE, rxGone |-> FALSE,
         h |-> [i \in 1..MaxInc |-> HInit], nextInc |-> 0,
@@ -60,10 +61,11 @@ Init ==
         ensFlushed |-> FALSE,
         sstate |-> "live",            \* "live" | "gone"
         buffered |-> 0, open |-> TRUE, credits |-> 0, wrW |-> FALSE, flW |-> FALSE,
-        fault |-> NoFault, faultsLeft |-> 1, sinkLeft |-> 2,
+        fault |-> NoFault, faultK |-> 1, faultsLeft |-> 1, sinkLeft |-> 2,
         woken |-> {T},
         o |-> SInit(Limit, RespBuf),
         tags |-> {}, sched |-> <<>> ]
+Init == S = InitS
 
 (* ------------------------------------------------------------------ helpers *)
 Wake(s, t) == [s EXCEPT !.woken = @ \cup {t}]
@@ -74,20 +76,41 @@ Tag(s, t) == IF ExportSched THEN [s EXCEPT !.tags = @ \cup {t}] ELSE s
 Goto(s, p) == [s EXCEPT !.pc = p]
 ChanIds(s) == {p[1] : p \in s.sinfl}
 HandlerOf(s, id) == (CHOOSE p \in s.sinfl : p[1] = id)[2]
-Earliest(s) == IF s.sdq = {} THEN 1000000 ELSE CHOOSE t \in {p[2] : p \in s.sdq} : \A u \in {p[2] : p \in s.sdq} : t <= u
 Max(a, b) == IF a > b THEN a ELSE b
-SinkLog(s, op, res) == Ob(s, SSinkOp(s.o, op, res, s.buffered))
+(* a fault armed at the k-th next use of an operation: every use that does not fail counts down *)
+SinkLog(s, op, res) ==
+  LET s1 == IF s.fault = op /\ res # "err" THEN [s EXCEPT !.faultK = @ - 1] ELSE s
+  IN Ob(s1, SSinkOp(s1.o, op, res, s1.buffered))
 ReadyNow(s) == CASE SinkMode = "always" -> TRUE [] SinkMode = "coupled" -> s.buffered < Cap [] OTHER -> s.credits > 0
 FlushNow(s) == CASE SinkMode = "coupled" -> s.open \/ s.buffered = 0 [] OTHER -> TRUE
-FaultHits(s, op) == s.fault = op
+FaultHits(s, op) == s.fault = op /\ s.faultK <= 1
 ClearFault(s) == [s EXCEPT !.fault = NoFault]
 
+(* DelayQueue (tokio-util 0.7), as in Client.tla: entries sdq, stored waker dqW, one Sleep (deadline dly, *)
+(* waker registered dqS)                                                                                   *)
+(* entries are <<id, deadline, insertion number>>; dqx is the `expired` stack (see Client.tla)              *)
+EarliestIn(q) == IF q = {} THEN NoSleep ELSE CHOOSE t \in {p[2] : p \in q} : \A u \in {p[2] : p \in q} : t <= u
+InStack(s, id) == \E i \in DOMAIN s.dqx : s.dqx[i] = id
+Wheel(s) == {p \in s.sdq : ~InStack(s, p[1])}
+SleepReset(s, at) ==
+  LET s1 == [s EXCEPT !.dly = at] IN
+  IF at <= s.now /\ s.dqS THEN [Wake(s1, T) EXCEPT !.dqS = FALSE] ELSE s1
+SleepNew(s, at) == [s EXCEPT !.dly = at, !.dqS = FALSE]
 DqInsert(s, id, at) ==
-  LET s1 == [s EXCEPT !.sdq = @ \cup {<<id, at>>}] IN
-  IF at < Earliest(s) /\ s.dqW THEN [Wake(s1, T) EXCEPT !.dqW = FALSE] ELSE s1
+  LET s1 == [s EXCEPT !.sdq = @ \cup {<<id, at, s.dqn + 1>>}, !.dqn = @ + 1,
+                      !.dqx = IF at <= s.wnow THEN <<id>> \o @ ELSE @] IN
+  IF s.dly = NoSleep \/ s.dly > at THEN
+    LET s2 == IF s.dqW THEN [Wake(s1, T) EXCEPT !.dqW = FALSE] ELSE s1 IN
+    IF s.dly = NoSleep THEN SleepNew(s2, at) ELSE SleepReset(s2, at)
+  ELSE s1
 DqRemove(s, id) ==
-  LET s1 == [s EXCEPT !.sdq = {p \in @ : p[1] # id}] IN
-  IF s1.sdq = {} /\ s.sdq # {} /\ s.dqW THEN [Wake(s1, T) EXCEPT !.dqW = FALSE] ELSE s1
+  LET prev == EarliestIn(Wheel(s))
+      s1 == [s EXCEPT !.sdq = {p \in @ : p[1] # id}, !.dqx = SelectSeq(@, LAMBDA x : x # id)]
+      next == EarliestIn(Wheel(s1))
+      s2 == IF prev = next THEN s1
+            ELSE IF next = NoSleep THEN [s1 EXCEPT !.dly = NoSleep, !.dqS = FALSE]
+            ELSE IF s.dly # NoSleep THEN SleepReset(s1, next) ELSE SleepNew(s1, next)
+  IN IF s1.sdq = {} /\ s.sdq # {} /\ s2.dqW THEN [Wake(s2, T) EXCEPT !.dqW = FALSE] ELSE s2
 
 (* in_flight_requests.{remove_request, cancel_request}: untrack id, optionally abort its handler *)
 ChanUntrack(s, id, abort) ==
@@ -144,19 +167,29 @@ S_BCanc(s) ==
   ELSE Goto([s EXCEPT !.gcW = TRUE], "bexp")
 
 S_BExp(s) ==
+  LET Expire(t, id) ==
+        LET t1 == [t EXCEPT !.sdq = {p \in @ : p[1] # id}]
+            t2 == IF id \in ChanIds(t1) /\ HandlerOf(t1, id) # 0
+                    THEN LET hh == HandlerOf(t1, id) IN
+                         WakeIf([t1 EXCEPT !.sinfl = {q \in @ : q[1] # id}, !.h[hh].aborted = TRUE, !.h[hh].abW = FALSE],
+                                t1.h[hh].abW, hh)
+                    ELSE t1
+        IN Goto(Tag([t2 EXCEPT !.held = 1], "expired"), "btr")
+  IN
   IF s.sdq = {} THEN Goto(s, "btr")                         \* workaround branch: Ready(None)
-  ELSE LET due == {p \in s.sdq : p[2] <= s.now}
-           s0 == [s EXCEPT !.dqW = TRUE]
-       IN IF due # {} THEN
-            LET p == CHOOSE x \in due : \A y \in due : x[2] < y[2] \/ (x[2] = y[2] /\ x[1] >= y[1])
-                s1 == [s0 EXCEPT !.sdq = @ \ {p}]
-                s2 == IF p[1] \in ChanIds(s1) /\ HandlerOf(s1, p[1]) # 0
-                        THEN LET hh == HandlerOf(s1, p[1]) IN
-                             WakeIf([s1 EXCEPT !.sinfl = {q \in @ : q[1] # p[1]}, !.h[hh].aborted = TRUE, !.h[hh].abW = FALSE],
-                                    s1.h[hh].abW, hh)
-                        ELSE s1
-            IN Goto(Tag([s2 EXCEPT !.held = 1], "expired"), "btr")
-          ELSE Goto([s0 EXCEPT !.dqS = TRUE, !.held = IF s.held = 1 THEN 1 ELSE 2], "btr")   \* 2 = Pending seen
+  ELSE LET s0 == [s EXCEPT !.dqW = TRUE] IN
+       IF s0.dqx # <<>> THEN Expire([s0 EXCEPT !.dqx = Tail(@)], Head(s0.dqx))
+       ELSE IF s0.dly = NoSleep THEN Goto(s0, "btr")
+       ELSE IF s0.dly > s0.now THEN Goto([s0 EXCEPT !.dqS = TRUE, !.held = IF s.held = 1 THEN 1 ELSE 2], "btr")   \* 2 = Pending seen
+       ELSE
+         LET due == {p \in Wheel(s0) : p[2] <= s0.dly}
+             s1 == [s0 EXCEPT !.wnow = s0.dly] IN
+         IF due # {} THEN
+            \* entries of one wheel slot come out last-inserted first
+            LET p == CHOOSE x \in due : \A y \in due : x[2] < y[2] \/ (x[2] = y[2] /\ x[3] >= y[3])
+                rest == Wheel(s1) \ {p}
+            IN Expire([s1 EXCEPT !.dly = EarliestIn(rest), !.dqS = FALSE], p[1])
+         ELSE Goto([s1 EXCEPT !.dly = EarliestIn(Wheel(s1)), !.dqS = FALSE], "bexp")
 
 S_BTr(s) ==
   IF s.rdDone THEN Goto(s, "bcomb0")
@@ -167,7 +200,7 @@ S_BTr(s) ==
         s1 == SinkLog([s EXCEPT !.inq = Tail(@)], "next", "item")
     IN IF m[1] = "req" THEN
          LET s2 == Ob(s1, SReadReq(s1.o, m[2], m[3])) IN
-         IF m[2] \in ChanIds(s2) THEN Goto(Tag([s2 EXCEPT !.held = 1], "duplicate"), "bcanc")   \* ignored: continue
+         IF m[2] \in ChanIds(s2) THEN Goto(Tag([s2 EXCEPT !.held = 0], "duplicate"), "bcanc")   \* ignored: continue (a new loop turn)
          ELSE IF s2.mpc = "throttle" THEN
            \* start_request tracks it; MaxRequests answers it with a WouldBlock error instead of yielding it
            LET s3 == DqInsert([s2 EXCEPT !.sinfl = @ \cup {<<m[2], 0>>}], m[2], Max(m[3], s2.now))
@@ -181,7 +214,7 @@ S_BTr(s) ==
            IN Goto([s4 EXCEPT !.rdres = "item", !.held = hh], "pwrite")
        ELSE \* Cancel
          LET s2 == Ob(s1, SReadCancel(s1.o, m[2])) IN
-         Goto([ChanUntrack(s2, m[2], TRUE) EXCEPT !.held = 1], "bcanc")
+         Goto([ChanUntrack(s2, m[2], TRUE) EXCEPT !.held = 0], "bcanc")     \* continue (a new loop turn)
   ELSE IF s.eof THEN
     LET s1 == SinkLog(s, "next", "eof") IN
     Goto([Ob(s1, SEofSeen(s1.o)) EXCEPT !.rdDone = TRUE], "bcomb0")
@@ -206,7 +239,7 @@ S_EnsReady(s) ==
     LET s1 == SinkLog(ClearFault(s), "ready", "err") IN StreamErr(Ob(s1, SFault(s1.o, "ready")), "ready")
   ELSE IF ReadyNow(s) THEN Goto(SinkLog(s, "ready", "ok"), "precv")
   ELSE LET s1 == SinkLog([s EXCEPT !.wrW = TRUE], "ready", "pending") IN
-       IF s.ensFlushed THEN Goto([s1 EXCEPT !.wrres = "pending"], "match")
+       IF s.ensFlushed THEN Goto(s1, "pflush")           \* poll_next_response is Pending: the Pending arm of pump_write
        ELSE Goto(s1, "ensflush")
 
 S_EnsFlush(s) ==
@@ -215,7 +248,7 @@ S_EnsFlush(s) ==
   ELSE IF FlushNow(s) THEN
     Goto(SinkLog(WakeIf([s EXCEPT !.buffered = 0, !.ensFlushed = TRUE, !.wrW = IF s.buffered > 0 THEN FALSE ELSE @],
                         s.buffered > 0 /\ s.wrW, T), "flush", "ok"), "ensready")
-  ELSE Goto([SinkLog([s EXCEPT !.flW = TRUE], "flush", "pending") EXCEPT !.wrres = "pending"], "match")
+  ELSE Goto(SinkLog([s EXCEPT !.flW = TRUE], "flush", "pending"), "pflush")
 
 ReleaseRespPermit(s) ==
   IF s.rwait # <<>> THEN
@@ -228,15 +261,18 @@ S_PRecv(s) ==
         s1 == ReleaseRespPermit([s EXCEPT !.resp = Tail(@)])
         s2 == ChanStartSend(s1, r[1], r[2], FALSE, "write")
     IN IF s2.ret = "err" THEN StreamErr(s2, "write") ELSE Goto([s2 EXCEPT !.wrres = "some"], "match")
-  ELSE \* Pending: flush, then decide whether the write half may close
-    LET s1 == [s EXCEPT !.rsW = TRUE] IN
-    IF FaultHits(s1, "flush") THEN
-      LET s2 == SinkLog(ClearFault(s1), "flush", "err") IN StreamErr(Ob(s2, SFault(s2.o, "flush")), "flush")
-    ELSE IF FlushNow(s1) THEN
-      LET s2 == SinkLog(WakeIf([s1 EXCEPT !.buffered = 0, !.wrW = IF s.buffered > 0 THEN FALSE ELSE @],
-                               s.buffered > 0 /\ s.wrW, T), "flush", "ok")
-      IN Goto([s2 EXCEPT !.wrres = IF s.rdres = "closed" /\ s2.sinfl = {} THEN "closed" ELSE "pending"], "match")
-    ELSE Goto([SinkLog([s1 EXCEPT !.flW = TRUE], "flush", "pending") EXCEPT !.wrres = "pending"], "match")
+  ELSE Goto([s EXCEPT !.rsW = TRUE], "pflush")
+
+(* the Pending arm of pump_write (no response could be taken: none queued, or the sink is not writeable):  *)
+(* flush, then decide whether the write half may close                                                     *)
+S_PFlush(s) ==
+  IF FaultHits(s, "flush") THEN
+    LET s2 == SinkLog(ClearFault(s), "flush", "err") IN StreamErr(Ob(s2, SFault(s2.o, "flush")), "flush")
+  ELSE IF FlushNow(s) THEN
+    LET s2 == SinkLog(WakeIf([s EXCEPT !.buffered = 0, !.wrW = IF s.buffered > 0 THEN FALSE ELSE @],
+                             s.buffered > 0 /\ s.wrW, T), "flush", "ok")
+    IN Goto([s2 EXCEPT !.wrres = IF s.rdres = "closed" /\ s2.sinfl = {} THEN "closed" ELSE "pending"], "match")
+  ELSE Goto([SinkLog([s EXCEPT !.flW = TRUE], "flush", "pending") EXCEPT !.wrres = "pending"], "match")
 
 S_Match(s) ==
   IF s.rdres = "closed" /\ s.wrres = "closed" THEN S_End(s, "end")
@@ -261,6 +297,7 @@ SStep(s) ==
     [] s.pc = "ensready" -> S_EnsReady(s)
     [] s.pc = "ensflush" -> S_EnsFlush(s)
     [] s.pc = "precv"    -> S_PRecv(s)
+    [] s.pc = "pflush"   -> S_PFlush(s)
     [] s.pc = "match"    -> S_Match(s)
 
 RECURSIVE SRun(_, _)
@@ -272,7 +309,7 @@ SRun(s, fuel) ==
 (* the stream is dropped (after an error / the end, or by the application): the channel goes away *)
 DropStream(s, how) ==
   LET tracked == {p[2] : p \in s.sinfl}
-      s1 == [s EXCEPT !.sstate = "gone", !.rxGone = TRUE, !.sinfl = {}, !.sdq = {},
+      s1 == [s EXCEPT !.sstate = "gone", !.rxGone = TRUE, !.sinfl = {}, !.sdq = {}, !.dly = NoSleep, !.dqS = FALSE, !.dqx = <<>>,
                       !.h = [i \in 1..MaxInc |-> IF i \in tracked THEN [@[i] EXCEPT !.aborted = TRUE, !.abW = FALSE] ELSE @[i]],
                       !.woken = ((@ \cup {i \in tracked : s.h[i].abW})
                                  \cup {i \in 1..MaxInc : \E k \in DOMAIN s.rwait : s.rwait[k] = i}) \ {T}]
@@ -332,15 +369,39 @@ Idle == S.pc = "idle"
 EnvOK == Idle \/ ~AtomicPolls
 Alive(hh) == S.h[hh].st \in {"offered", "running", "sending"}
 
+(* environment steps and whole polls as operators on the state (used by the actions below and by Trace_ServerMech) *)
+F_StreamPoll(s, fuel) ==
+  LET s1 == SRun(S_Begin(s), fuel) IN
+  IF s1.ret \in {"end", "read", "ready", "write", "flush", "spin"}
+    THEN DropStream(IF s1.ret = "end" \/ s1.ret = "spin" THEN s1
+                    ELSE Ob(s1, SPollEnd(s1.o, "err", Cardinality(s1.sinfl), Cardinality(s1.sdq))),
+                    IF s1.ret = "spin" THEN "dropped" ELSE s1.ret)
+    ELSE s1
+F_Complete(s, hh) == WakeIf([s EXCEPT !.h[hh].complete = TRUE, !.h[hh].inW = FALSE], s.h[hh].inW, hh)
+F_PeerReq(s, id, dl) ==
+  WakeIf([s EXCEPT !.inq = Append(@, <<"req", id, dl>>), !.usedIds = @ \cup {id}, !.rdW = FALSE], s.rdW, T)
+F_PeerCancel(s, id) == WakeIf([s EXCEPT !.inq = Append(@, <<"cancel", id, 0>>), !.rdW = FALSE], s.rdW, T)
+F_PeerEof(s) == LET s1 == WakeIf([s EXCEPT !.eof = TRUE, !.rdW = FALSE], s.rdW, T) IN Ob(s1, SEofPushed(s1.o))
+F_Tick(s, d) ==
+  LET t == s.now + d
+      fires == s.dqS /\ s.dly # NoSleep /\ s.dly <= t
+      s1 == [s EXCEPT !.now = t, !.o.now = t, !.dqS = IF fires THEN FALSE ELSE @]
+  IN WakeIf(s1, fires, T)
+F_SinkOpen(s) == WakeIf([s EXCEPT !.open = TRUE, !.wrW = FALSE, !.flW = FALSE], s.wrW \/ s.flW, T)
+F_SinkBlock(s) == [s EXCEPT !.open = FALSE]
+F_SinkCredit(s) == WakeIf([s EXCEPT !.credits = @ + 1, !.wrW = FALSE], s.wrW, T)
+F_Arm(s, op, k) ==
+  LET s1 == [s EXCEPT !.fault = op, !.faultK = k]
+  IN CASE op = "next"  -> WakeIf([s1 EXCEPT !.rdW = FALSE], s.rdW, T)
+       [] op = "ready" -> WakeIf([s1 EXCEPT !.wrW = FALSE], s.wrW, T)
+       [] op = "flush" -> WakeIf([s1 EXCEPT !.flW = FALSE], s.flW, T)
+       [] OTHER -> s1
+
 StreamPoll ==
   /\ S.sstate = "live" /\ Idle /\ T \in S.woken
   /\ IF AtomicPolls
        THEN LET s1 == SRun(S_Begin(S), 80)
-                s2 == IF s1.ret \in {"end", "read", "ready", "write", "flush", "spin"}
-                        THEN DropStream(IF s1.ret = "end" \/ s1.ret = "spin" THEN s1
-                                        ELSE Ob(s1, SPollEnd(s1.o, "err", Cardinality(s1.sinfl), Cardinality(s1.sdq))),
-                                        IF s1.ret = "spin" THEN "dropped" ELSE s1.ret)
-                        ELSE s1
+                s2 == F_StreamPoll(S, 80)
             IN S' = Rec(s2, [a |-> "Poll", t |-> T,
                              res |-> IF s1.ret \in {"read", "ready", "write", "flush"} THEN "err" ELSE s1.ret,
                              infl |-> Cardinality(s1.sinfl),
@@ -363,7 +424,7 @@ HandlerPoll(hh) ==
 
 Complete(hh) ==
   /\ EnvOK /\ Alive(hh) /\ ~S.h[hh].complete /\ S.h[hh].st \in {"offered", "running"}
-  /\ S' = Rec(WakeIf([S EXCEPT !.h[hh].complete = TRUE, !.h[hh].inW = FALSE], S.h[hh].inW, hh), [a |-> "Complete", h |-> hh])
+  /\ S' = Rec(F_Complete(S, hh), [a |-> "Complete", h |-> hh])
 
 AppDropHandler(hh) ==
   /\ AllowAppDrop /\ EnvOK /\ Alive(hh)
@@ -376,44 +437,33 @@ AppDropStream ==
 PeerReq(id, dl) ==
   /\ EnvOK /\ S.reqLeft > 0 /\ ~S.eof /\ S.sstate = "live"
   /\ (FreshIdsOnly => id \notin S.usedIds)
-  /\ LET s1 == [S EXCEPT !.inq = Append(@, <<"req", id, dl>>), !.reqLeft = @ - 1, !.usedIds = @ \cup {id}, !.rdW = FALSE]
-     IN S' = Rec(WakeIf(s1, S.rdW, T), [a |-> "Req", id |-> id, dl |-> dl])
+  /\ S' = Rec([F_PeerReq(S, id, dl) EXCEPT !.reqLeft = @ - 1], [a |-> "Req", id |-> id, dl |-> dl])
 
 PeerCancel(id) ==
   /\ EnvOK /\ S.cancelLeft > 0 /\ ~S.eof /\ S.sstate = "live" /\ id \in S.usedIds
-  /\ LET s1 == [S EXCEPT !.inq = Append(@, <<"cancel", id, 0>>), !.cancelLeft = @ - 1, !.rdW = FALSE]
-     IN S' = Rec(WakeIf(s1, S.rdW, T), [a |-> "Cancel", id |-> id])
+  /\ S' = Rec([F_PeerCancel(S, id) EXCEPT !.cancelLeft = @ - 1], [a |-> "Cancel", id |-> id])
 
 PeerEof ==
   /\ AllowEof /\ EnvOK /\ ~S.eof /\ S.sstate = "live"
-  /\ LET s1 == WakeIf([S EXCEPT !.eof = TRUE, !.rdW = FALSE], S.rdW, T) IN
-     S' = Rec(Ob(s1, SEofPushed(s1.o)), [a |-> "PeerEof"])
+  /\ S' = Rec(F_PeerEof(S), [a |-> "PeerEof"])
 
 Tick ==
   /\ EnvOK /\ S.now < MaxTime
-  /\ LET t == S.now + 1
-         fires == S.dqS /\ \E p \in S.sdq : p[2] <= t
-         s1 == [S EXCEPT !.now = t, !.o.now = t, !.dqS = IF fires THEN FALSE ELSE @]
-     IN S' = Rec(WakeIf(s1, fires, T), [a |-> "Tick", d |-> 1])
+  /\ S' = Rec(F_Tick(S, 1), [a |-> "Tick", d |-> 1])
 
 SinkOpen ==
   /\ SinkMode = "coupled" /\ EnvOK /\ ~S.open
-  /\ S' = Rec(WakeIf([S EXCEPT !.open = TRUE, !.wrW = FALSE, !.flW = FALSE], S.wrW \/ S.flW, T), [a |-> "SinkOpen"])
+  /\ S' = Rec(F_SinkOpen(S), [a |-> "SinkOpen"])
 SinkBlock ==
   /\ SinkMode = "coupled" /\ EnvOK /\ S.open /\ S.sstate = "live" /\ S.sinkLeft > 0
-  /\ S' = Rec([S EXCEPT !.open = FALSE, !.sinkLeft = @ - 1], [a |-> "SinkBlock"])
+  /\ S' = Rec([F_SinkBlock(S) EXCEPT !.sinkLeft = @ - 1], [a |-> "SinkBlock"])
 SinkCredit ==
   /\ SinkMode = "independent" /\ EnvOK /\ S.credits < 1 /\ S.sstate = "live"
-  /\ S' = Rec(WakeIf([S EXCEPT !.credits = @ + 1, !.wrW = FALSE], S.wrW, T), [a |-> "SinkCredit"])
+  /\ S' = Rec(F_SinkCredit(S), [a |-> "SinkCredit"])
 
 Arm(op) ==
   /\ EnvOK /\ S.fault = NoFault /\ S.faultsLeft > 0 /\ S.sstate = "live"
-  /\ LET s1 == [S EXCEPT !.fault = op, !.faultsLeft = @ - 1]
-         s2 == CASE op = "next"  -> WakeIf([s1 EXCEPT !.rdW = FALSE], S.rdW, T)
-                 [] op = "ready" -> WakeIf([s1 EXCEPT !.wrW = FALSE], S.wrW, T)
-                 [] op = "flush" -> WakeIf([s1 EXCEPT !.flW = FALSE], S.flW, T)
-                 [] OTHER -> s1
-     IN S' = Rec(s2, [a |-> "Arm", op |-> op, k |-> 1])
+  /\ S' = Rec([F_Arm(S, op, 1) EXCEPT !.faultsLeft = @ - 1], [a |-> "Arm", op |-> op, k |-> 1])
 
 Next ==
   \/ StreamPoll \/ StreamStep
